@@ -96,6 +96,17 @@ type expOutcome struct {
 	report   *report.Report
 }
 
+// fdsQuery is queries.FDS with a scheduling point in Key(): Run calls Key() on
+// its root queries once more after they have been resolved, when it looks
+// their tasks up again to collect the diagnostics, and nothing else in that
+// stretch of Run is a scheduling point.
+type fdsQuery struct{ queries.FDS }
+
+func (q fdsQuery) Key() any {
+	sim.Yield("h.key", "")
+	return q.FDS.Key()
+}
+
 func (e *expEnv) compile(ctx context.Context) (out expOutcome) {
 	defer func() {
 		if p := recover(); p != nil {
@@ -105,9 +116,9 @@ func (e *expEnv) compile(ctx context.Context) (out expOutcome) {
 	}()
 	e.active++
 	defer func() { e.active-- }()
-	res, rep, err := incremental.Run(ctx, e.exec, queries.FDS{
+	res, rep, err := incremental.Run(ctx, e.exec, fdsQuery{queries.FDS{
 		Opener: e.opener, Session: e.session, Workspace: e.workspace, Options: e.options,
-	})
+	}})
 	out.returned = true
 	out.err = err
 	if err != nil {
